@@ -575,10 +575,17 @@ theorem readObject_good (d : Nat) (inp : Bytes) : GoodLt inp.length (readObject 
 theorem readDict_good (d : Nat) (inp : Bytes) : GoodLt inp.length (readDict (objFuel inp) d inp) :=
   (all_claims (objFuel inp)).2.2.2.1 d inp (by unfold objFuel; omega) (by unfold objFuel; omega)
 
+theorem recoverExtent_typed (file : Bytes) (start : Nat) : TypedErr (recoverExtent file start) := by
+  intro e he
+  unfold recoverExtent at he
+  repeat' (first | (cases he <;> first | exact Or.inl rfl | exact Or.inr rfl) | split at he | simp only [] at he)
+
 theorem readStreamData_typed (file : Bytes) (pos : Nat) (declared : Option Nat) :
     TypedErr (readStreamData file pos declared) := by
   intro e he
   unfold readStreamData at he
+  have hr := fun s => recoverExtent_typed file s e
+  repeat' (first | (exact hr _ he) | (cases he <;> first | exact Or.inl rfl | exact Or.inr rfl) | split at he | simp only [] at he)
   repeat' (first | (cases he <;> first | exact Or.inl rfl | exact Or.inr rfl) | split at he | simp only [] at he)
 
 theorem readInt_typed (inp : Bytes) : TypedErr (readInt inp) := by
